@@ -57,6 +57,9 @@ def record(rec, b, mjm, mjd, m, d, cmp, opts):
         dim = con[i]["dim"]
         fr = con[i]["friction"]
         ff = f[r : r + dim]
+        if len(ff) < dim or any(int(got.efc_id[r + j]) != i for j in range(dim)):
+          rows.append(row)  # (efc_id of worlds > 0 is off by the earlier worlds' contacts - F26: the block is not this contact's, nothing to judge)
+          continue
         tang = float(np.sqrt(sum((ff[j] / max(fr[j - 1], 1e-12)) ** 2 for j in range(1, dim))))
         row["incone"] = bool(tang <= ff[0] * (1 + 1e-3) + eps)
       rows.append(row)
